@@ -322,10 +322,33 @@ func (a *api) callShared(k, u []byte, layout int) (out []byte, ok bool, p *lib.P
 	if p == nil {
 		if !lib.Eq(gk.Buf, k) || !lib.Eq(gu.Buf, u) {
 			lib.Count(a.c.name + ":shared-modified-an-input")
+			lib.Violation("C06:operand-modified:"+a.c.name+".Shared", monX, lib.D("k", k, "u", u, "k_after", gk.Buf, "u_after", gu.Buf))
 		}
 		gput(gk, n, layout&1 != 0)
 		gput(gu, n, layout&2 != 0)
 		gput(gout, n, layout&4 != 0)
+	}
+	return
+}
+
+// callSharedAliased: Shared with the output written over the peer value
+// (mode 1) or over the secret (mode 2).
+func (a *api) callSharedAliased(k, u []byte, mode, layout int) (out []byte, ok bool, p *lib.Panic) {
+	n := a.c.size
+	gk := gget(n, layout&1 != 0)
+	gu := gget(n, layout&2 != 0)
+	copy(gk.Buf, k)
+	copy(gu.Buf, u)
+	gout := gu
+	if mode == 2 {
+		gout = gk
+	}
+	debug.SetPanicOnFault(true)
+	p = lib.Try(a.c.name+".Shared(aliased)", append(lib.Clone(k), u...), func() { ok = a.shared(gout.Ptr(), gk.Ptr(), gu.Ptr()) })
+	out = lib.Clone(gout.Buf)
+	if p == nil {
+		gput(gk, n, layout&1 != 0)
+		gput(gu, n, layout&2 != 0)
 	}
 	return
 }
@@ -766,6 +789,23 @@ func onePair(a *api, ks, us named, idx int) {
 		lib.Count(c.name + ":flag-false")
 	}
 	flagCheck(c, monX, k, u, got, ok)
+	// the same call with the output buffer being the peer's (in-place DH) or
+	// the secret's array: result and flag must not depend on where it is written
+	if idx%3 == 0 {
+		for _, mode := range []int{1, 2} {
+			ga, oka, pa := a.callSharedAliased(k, u, mode, layout)
+			lib.Count(c.name + ":shared-output-aliases-an-input")
+			if pa != nil {
+				vio(c, "panic-"+panicClass(pa), "Shared", "aliased", "k", k, "u", u, "panic", pa.Value, "output_is", []string{"", "peer", "secret"}[mode])
+				break
+			}
+			if !lib.Eq(ga, got) || oka != ok {
+				vio(c, "result-depends-on-output-aliasing", "Shared", "", "k", k, "u", u, "output_is", []string{"", "peer", "secret"}[mode],
+					"separate_output", got, "aliased_output", ga, "ok_separate", ok, "ok_aliased", oka)
+				break
+			}
+		}
+	}
 	if idx < 2 {
 		lib.Sample(monX, lib.D("curve", c.name, "k", k, "u", u, "shared", got, "ok", ok))
 	}
